@@ -4,6 +4,7 @@
 package props
 
 import (
+	"bytes"
 	"bufio"
 	"context"
 	"crypto/sha1"
@@ -57,6 +58,26 @@ type Run struct {
 	ends   []*simrt.End
 	Ctx    context.Context
 	stop   context.CancelFunc
+
+	inflight []*inflightBuf // caller buffers currently inside a write call
+}
+
+type inflightBuf struct {
+	who        string
+	data, snap []byte
+}
+
+// checkInflight compares every buffer that is inside a write call right now with
+// the snapshot taken before the call: the library may not modify a caller's
+// buffer, not even for the duration of the call (another goroutine may be
+// sending the same buffer on another connection).
+func (r *Run) checkInflight() {
+	for _, b := range r.inflight {
+		if !bytes.Equal(b.data, b.snap) {
+			r.Violate("caller-buffer-modified", "write", "%s: the buffer passed to a write call (%d bytes) differs from its content before the call while the call is in progress (first difference at byte %d)", b.who, len(b.snap), firstDiff(b.data, b.snap))
+			return
+		}
+	}
 }
 
 // Violate records an oracle failure.
@@ -350,7 +371,9 @@ func (r *Run) LibVsRaw(name string, o RawOpts) (c *websocket.Conn, lib, raw *sim
 			rec.Header().Set("Connection", "Upgrade")
 			rec.Header().Set("Sec-WebSocket-Accept", AcceptKey(req.Header.Get("Sec-WebSocket-Key")))
 			if o.Ext != "" && (req.Header.Get("Sec-WebSocket-Extensions") != "" || o.ForceExt) {
-				rec.Header().Set("Sec-WebSocket-Extensions", o.Ext)
+				for _, line := range strings.Split(o.Ext, "\n") {
+					rec.Header().Add("Sec-WebSocket-Extensions", line)
+				}
 			}
 			rec.WriteHeader(http.StatusSwitchingProtocols)
 			resp := rec.Result()
